@@ -569,13 +569,12 @@ impl<'a> KMergeIterator<'a> {
 					if table.is_before_range(&query_range) || table.is_after_range(&query_range) {
 						continue;
 					}
-					// Skip tables outside timestamp range (if specified)
-					if let Some((ts_start, ts_end)) = ts_range {
-						let props = &table.meta.properties;
-						if let (Some(newest), Some(oldest)) =
-							(props.newest_key_time, props.oldest_key_time)
-						{
-							if newest < ts_start || oldest > ts_end {
+					// Skip tables entirely older than the timestamp range (if
+					// specified). A table entirely newer than the range stays: a
+					// hard delete or replace in it erases versions inside the range.
+					if let Some((ts_start, _)) = ts_range {
+						if let Some(newest) = table.meta.properties.newest_key_time {
+							if newest < ts_start {
 								continue;
 							}
 						}
@@ -593,13 +592,12 @@ impl<'a> KMergeIterator<'a> {
 				let end_idx = level.find_last_overlapping_table(&query_range);
 
 				for table in &level.tables[start_idx..end_idx] {
-					// Skip tables outside timestamp range (if specified)
-					if let Some((ts_start, ts_end)) = ts_range {
-						let props = &table.meta.properties;
-						if let (Some(newest), Some(oldest)) =
-							(props.newest_key_time, props.oldest_key_time)
-						{
-							if newest < ts_start || oldest > ts_end {
+					// Skip tables entirely older than the timestamp range (if
+					// specified). A table entirely newer than the range stays: a
+					// hard delete or replace in it erases versions inside the range.
+					if let Some((ts_start, _)) = ts_range {
+						if let Some(newest) = table.meta.properties.newest_key_time {
+							if newest < ts_start {
 								continue;
 							}
 						}
@@ -1473,31 +1471,12 @@ impl<'a> HistoryIterator<'a> {
 		Ok(false)
 	}
 
-	/// With ts_range, seek to (next_user_key, ts_end) to skip entries above range.
-	/// Without ts_range, linearly scan past entries with the same user_key.
+	/// Move to the first entry of the next user_key. The versions above a
+	/// timestamp range are not skipped by a seek: a hard delete or replace
+	/// among them erases the versions inside the range and has to be seen.
 	/// Returns true if positioned on a new user_key, false if iterator exhausted.
 	fn advance_to_next_user_key(&mut self) -> Result<bool> {
-		// Only optimize with ts_range
-		let ts_end = match self.ts_range {
-			Some((_, end)) => end,
-			None => return self.skip_to_next_user_key(),
-		};
-
-		let current = self.current_user_key.clone();
-
-		// Advance to find next user_key
-		while self.inner_valid() {
-			let next_key_vec = self.inner_key().user_key().to_vec();
-			if next_key_vec != current {
-				// Found next key - seek to (next_key, ts_end) to skip entries above range
-				let seek_key =
-					InternalKey::new(next_key_vec, u64::MAX, InternalKeyKind::Set, ts_end);
-				self.inner.seek(&seek_key.encode())?;
-				return Ok(self.inner_valid());
-			}
-			self.inner_next()?;
-		}
-		Ok(false)
+		self.skip_to_next_user_key()
 	}
 
 	// --- Bounds checking ---
@@ -1597,7 +1576,17 @@ impl<'a> HistoryIterator<'a> {
 			// Skip entries outside timestamp range
 			if let Some((ts_start, ts_end)) = self.ts_range {
 				if timestamp > ts_end {
-					// Above range - skip, next entries might be in range
+					// Above range - not listed, but a hard delete or replace up
+					// here still erases every older version of the key.
+					if !self.first_visible_seen {
+						self.first_visible_seen = true;
+						if is_hard_delete {
+							self.latest_is_hard_delete = true;
+						}
+					}
+					if is_hard_delete || is_replace {
+						self.barrier_seen = true;
+					}
 					self.inner_next()?;
 					continue;
 				}
@@ -1707,6 +1696,9 @@ impl<'a> HistoryIterator<'a> {
 			is_hard_delete: bool,
 			is_replace: bool,
 			is_tombstone: bool,
+			// Outside the timestamp range a version is not listed, but as a
+			// hard delete or replace it still erases the older ones.
+			in_ts_range: bool,
 			encoded_key: Vec<u8>,
 			value: Vec<u8>,
 		}
@@ -1735,13 +1727,18 @@ impl<'a> HistoryIterator<'a> {
 				None => true,
 			};
 
-			if visible && in_ts_range {
+			if visible {
 				versions.push(VersionInfo {
 					is_hard_delete: key_ref.is_hard_delete_marker(),
 					is_replace: key_ref.is_replace(),
 					is_tombstone: key_ref.is_tombstone(),
+					in_ts_range,
 					encoded_key: key_ref.encoded().to_vec(),
-					value: self.inner_value()?.to_vec(),
+					value: if in_ts_range {
+						self.inner_value()?.to_vec()
+					} else {
+						Vec::new()
+					},
 				});
 			}
 
@@ -1789,7 +1786,7 @@ impl<'a> HistoryIterator<'a> {
 		// Output versions[valid_start_idx..] in ASC order (oldest first for backward)
 		for v in versions.into_iter().skip(valid_start_idx) {
 			// Skip HARD_DELETE markers (shouldn't happen after valid_start_idx, but be safe)
-			if v.is_hard_delete {
+			if v.is_hard_delete || !v.in_ts_range {
 				continue;
 			}
 
@@ -1922,17 +1919,7 @@ impl LSMIterator for HistoryIterator<'_> {
 		self.direction = MergeDirection::Forward;
 		self.reset_all_state();
 
-		if self.ts_range.is_some() {
-			// Seek to (lower_bound or empty, ts_end) to skip entries above range
-			let ts = self.ts_range.map(|(_, end)| end).unwrap_or(u64::MAX);
-			let seek_key = InternalKey::new(
-				self.lower_bound.clone().unwrap_or_default(),
-				u64::MAX,
-				InternalKeyKind::Set,
-				ts,
-			);
-			self.inner.seek(&seek_key.encode())?;
-		} else if let Some(ref lower) = self.lower_bound {
+		if let Some(ref lower) = self.lower_bound {
 			let seek_key =
 				InternalKey::new(lower.clone(), u64::MAX, InternalKeyKind::Set, u64::MAX);
 			self.inner.seek(&seek_key.encode())?;
